@@ -39,8 +39,8 @@ fn true_byte(region: u64, tail_protnone: bool, a: u64) -> Option<u8> {
     let end = region + PAGES * PAGE;
     if a >= region && a < end {
         Some(pattern_byte(a))
-    } else if tail_protnone && a >= end && a < end + PAGE {
-        Some(0) // the PROT_NONE page was never written: its true content is zero
+    } else if (tail_protnone && a >= end && a < end + PAGE) || (a >= region - PAGE && a < region) {
+        Some(0) // the PROT_NONE pages (guard page in front of every region; the tail page) were never written: their true content is zero
     } else {
         None
     }
@@ -144,8 +144,10 @@ fn run_chunk(c: &Chunk) -> (u64, u64, Vec<(String, String, Value)>, Option<Value
             if (len as u64) <= PAGES * PAGE {
                 starts.push((end - len as u64 + a + 1, "crosses-end"));
             }
+            // starting 1..8 bytes BEFORE the region, inside the inaccessible guard page in front of it
+            starts.push((region - (a + 1), "starts-before-region"));
             for (start, place) in starts {
-                if start < region {
+                if start < region && place != "starts-before-region" {
                     continue;
                 }
                 // only the dedicated placement crosses the end (by <= 8 bytes, i.e. into the tail page only)
@@ -168,11 +170,11 @@ fn run_chunk(c: &Chunk) -> (u64, u64, Vec<(String, String, Value)>, Option<Value
                     if let Some((k, m)) = judge(region, c.protnone, start, len, &r) {
                         let key = format!("{}/{k}/{place}", s.name());
                         if fails.len() < 30 && !fails.iter().any(|f| f.0 == key) {
-                            fails.push((key, format!("{} ({place}, tail {}): {m}", s.name(), if c.protnone { "PROT_NONE" } else { "unmapped" }), json!({"protnone": c.protnone, "offset_from_region": start - region, "len": len, "strategy": s.name()})));
+                            fails.push((key, format!("{} ({place}, tail {}): {m}", s.name(), if c.protnone { "PROT_NONE" } else { "unmapped" }), json!({"protnone": c.protnone, "offset_from_region": start as i64 - region as i64, "len": len, "strategy": s.name()})));
                         }
                     }
                     if sample.is_none() && place == "crosses-end" && len > 20 {
-                        sample = Some(json!({"strategy": s.name(), "tail": if c.protnone { "PROT_NONE" } else { "unmapped" }, "offset_from_region": start - region, "len": len, "placement": place}));
+                        sample = Some(json!({"strategy": s.name(), "tail": if c.protnone { "PROT_NONE" } else { "unmapped" }, "offset_from_region": start as i64 - region as i64, "len": len, "placement": place}));
                     }
                 }
             }
@@ -187,7 +189,7 @@ fn run_chunk(c: &Chunk) -> (u64, u64, Vec<(String, String, Value)>, Option<Value
 }
 
 pub fn run(ctx: &Ctx, rep: &mut Report) {
-    rep.rule = "start alignment 0..7 x length (1..300 + boundary powers quick; 1..4112 + powers thorough) x placement {region start, interior, ends exactly at the region end, crosses the end by 1..8} x tail {unmapped, PROT_NONE} x {process_vm_readv, /proc/pid/mem, PTRACE_PEEKDATA, fresh auto-probing reader}; nontrivial = reads touching a region boundary".into();
+    rep.rule = "start alignment 0..7 x length (1..300 + boundary powers quick; 1..4112 + powers thorough) x placement {region start, interior, ends exactly at the region end, crosses the end by 1..8, starts 1..8 bytes before the region} x tail {unmapped, PROT_NONE} x {process_vm_readv, /proc/pid/mem, PTRACE_PEEKDATA, fresh auto-probing reader}; nontrivial = reads touching a region boundary".into();
     rep.assume("the PROT_NONE tail page was never written, so its true content is zero; the kernel may legitimately let /proc/pid/mem and ptrace read it");
     if let Some(case) = &ctx.replay {
         let protnone = case["protnone"].as_bool().unwrap_or(false);
@@ -203,7 +205,7 @@ pub fn run(ctx: &Ctx, rep: &mut Report) {
             }
             r == 0
         };
-        let start = region + case["offset_from_region"].as_u64().unwrap_or(0);
+        let start = (region as i64 + case["offset_from_region"].as_i64().unwrap_or(0)) as u64;
         let len = case["len"].as_u64().unwrap_or(1) as usize;
         let r = read_with(p.pid, s, start, len);
         rep.evaluations += 1;
